@@ -1,12 +1,12 @@
 import Props.C10
 import Props.Driver
 /-!
-# C10 at run level: the count does not depend on the order of the ballot lines (wigm, wigm-prf, wigm-prf-batch)
+# C10 at run level: the count does not depend on the order of the ballot lines (all seven Gregory rule names)
 
 `π` ranges over the *natural* permutations of lists (`NatPerm`: rearrangements of positions — they commute with `List.map` and
 return a permutation of their argument; reversal, rotations, adjacent transpositions and their compositions are instances, and
 adjacent transpositions generate every reordering).  For every case whatsoever (no domain hypothesis), every fixed-point
-precision, every configuration of the three wigm rule names:
+precision, every configuration of wigm, and wigm-prf, wigm-prf-batch, scotland, cfer, cfer-batch, mpls (`gregory_ballot_order`):
 
   running the case with its ballot lines rearranged by `π` returns exactly the state returned for the original case with its
   ballot list, and the ballot views logged with each action, rearranged by `π` — every action, tally, quota, total, status and
@@ -15,7 +15,7 @@ precision, every configuration of the three wigm rule names:
 
 Proof: `DroopProofs/PermB.lean` (the first count and `transferAll` are folds whose effect on the state is a sum of per-ballot
 effects that commute pairwise: `tstate_comm`, `Perm.foldl_eq'`) and `PermBWigm.lean` (every step of the driver commutes with
-`permB π`).  Splitting / merging identical ballots through multipliers, the other rules, and the file-level presentation
+`permB π`; `PermBMore.lean` for scotland, cfer, mpls).  Splitting / merging identical ballots through multipliers, the Meek family and QPQ, and the file-level presentation
 (comments, layout, nicknames) are decided by re-running the real code (C10 check) and by the reader theorems of C15.
 -/
 namespace Droop.C10
@@ -49,6 +49,36 @@ theorem wigm_ballot_order (p : Nat) (c : Case) (hr : c.rule = "wigm" ∨ c.rule 
     · exact ⟨{ prf := true, prfBatch := true }, fun s0 => by simp only [runRuleSt', hr]⟩
   rw [ho, ho]
   exact wigm_permB (fixedArith p) (fixed_lawful p) hπ o _
+
+/-- **the order of the ballot lines is irrelevant, all seven Gregory rule names** (wigm in every configuration, wigm-prf,
+    wigm-prf-batch, scotland, cfer, cfer-batch, mpls) — no hypothesis on the case -/
+theorem gregory_ballot_order (p : Nat) (c : Case)
+    (hr : c.rule ∈ ["wigm", "wigm-prf", "wigm-prf-batch", "scotland", "cfer", "cfer-batch", "mpls"])
+    {π : ∀ {β : Type}, List β → List β} (hπ : NatPerm π) :
+    runRuleSt (fixedArith p) (reorder π c) = (runRuleSt (fixedArith p) c).map (permB π) := by
+  have h1 : runRuleSt (fixedArith p) (reorder π c) = runRuleSt' (fixedArith p) c (permB π (initState (fixedArith p) c)) := by
+    unfold runRuleSt
+    rw [runRuleSt'_reorder, initState_reorder (fixedArith p) hπ]
+  rw [h1]
+  unfold runRuleSt
+  obtain ⟨count, ho, hperm⟩ : ∃ count : St Int → Option (St Int), (∀ s0, runRuleSt' (fixedArith p) c s0 = count s0)
+      ∧ ∀ s0, count (permB π s0) = (count s0).map (permB π) := by
+    simp only [List.mem_cons, List.not_mem_nil, or_false] at hr
+    rcases hr with hr | hr | hr | hr | hr | hr | hr
+    · exact ⟨wigmCount (fixedArith p) { integerQuota := c.intq, batchZero := c.batch == "zero" },
+        fun s0 => by simp only [runRuleSt', hr], fun s0 => wigm_permB (fixedArith p) (fixed_lawful p) hπ _ s0⟩
+    · exact ⟨wigmCount (fixedArith p) { prf := true }, fun s0 => by simp only [runRuleSt', hr],
+        fun s0 => wigm_permB (fixedArith p) (fixed_lawful p) hπ _ s0⟩
+    · exact ⟨wigmCount (fixedArith p) { prf := true, prfBatch := true }, fun s0 => by simp only [runRuleSt', hr],
+        fun s0 => wigm_permB (fixedArith p) (fixed_lawful p) hπ _ s0⟩
+    · exact ⟨scotCount (fixedArith p), fun s0 => by simp only [runRuleSt', hr], fun s0 => scot_permB (fixedArith p) (fixed_lawful p) hπ s0⟩
+    · exact ⟨cferCount (fixedArith p) false, fun s0 => by simp only [runRuleSt', hr],
+        fun s0 => cfer_permB (fixedArith p) (fixed_lawful p) hπ false s0⟩
+    · exact ⟨cferCount (fixedArith p) true, fun s0 => by simp only [runRuleSt', hr],
+        fun s0 => cfer_permB (fixedArith p) (fixed_lawful p) hπ true s0⟩
+    · exact ⟨mplsCount (fixedArith p), fun s0 => by simp only [runRuleSt', hr], fun s0 => mpls_permB (fixedArith p) (fixed_lawful p) hπ s0⟩
+  rw [ho, ho]
+  exact hperm _
 
 /-! ## natural permutations exist, and compose -/
 
